@@ -113,7 +113,7 @@ func (ts TypeSpecifier) parent() TypeSpecifier {
 		return TypeSpecifier{FHIR, "uri"}
 	case "Duration", "MoneyQuantity", "Age", "Count", "Distance", "SimpleQuantity":
 		return TypeSpecifier{FHIR, "Quantity"}
-	case "Timing", "Dosage", "ElementDefinition":
+	case "Timing", "Dosage", "ElementDefinition", "MarketingStatus", "Population", "ProdCharacteristic", "ProductShelfLife", "SubstanceAmount":
 		return TypeSpecifier{FHIR, "BackboneElement"}
 	case "Bundle", "Binary", "Parameters", "DomainResource":
 		return TypeSpecifier{FHIR, "Resource"}
@@ -125,7 +125,12 @@ func (ts TypeSpecifier) parent() TypeSpecifier {
 		if IsValidFHIRPathElement(ts.typeName) {
 			return TypeSpecifier{FHIR, "Element"}
 		}
-		return TypeSpecifier{FHIR, "DomainResource"}
+		if protofields.IsValidResourceType(ts.typeName) {
+			return TypeSpecifier{FHIR, "DomainResource"}
+		}
+		// neither a data type nor a resource: a component nested in a resource
+		// or data type (Patient.contact, Bundle.entry, …)
+		return TypeSpecifier{FHIR, "BackboneElement"}
 	}
 }
 
